@@ -2882,13 +2882,33 @@ class WBEMConnection:  # pylint: disable=too-many-instance-attributes
                                                  namespace)
         return (rtn_objects, end_of_sequence, rtn_ctxt)
 
+    def _get_ireturnvalue_objects(self, result):
+        """
+        Support for Associators, References, AssociatorNames and
+        ReferenceNames operations: Return the objects from the child elements
+        of IRETURNVALUE, which must be elements that are parsed into a
+        tuple(name, attrs, object), i.e. VALUE.OBJECTWITHPATH,
+        VALUE.OBJECTWITHLOCALPATH or OBJECTPATH.
+        """
+        objects = []
+        if result is not None:
+            for x in result[0][2]:
+                if not isinstance(x, tuple) or len(x) != 3:
+                    raise CIMXMLParseError(
+                        _format("Unexpected child element of IRETURNVALUE, "
+                                "parsed as {0} object",
+                                x.__class__.__name__),
+                        conn_id=self.conn_id)
+                objects.append(x[2])
+        return objects
+
     def _get_returned_objects(self, result, ObjectName):
         """
         Support for Associators, References operations
         Get returned objects and validate that the types correspond to the types
         for Associators and References
         """
-        objects = [] if result is None else [x[2] for x in result[0][2]]
+        objects = self._get_ireturnvalue_objects(result)
 
         if isinstance(ObjectName, CIMInstanceName):
             # instance-level invocation
@@ -2920,7 +2940,7 @@ class WBEMConnection:  # pylint: disable=too-many-instance-attributes
         CIMInstanceName if the request was CIMInstanceName or
         CIMClassName if the request was CIMClassName
         """
-        objects = [] if result is None else [x[2] for x in result[0][2]]
+        objects = self._get_ireturnvalue_objects(result)
 
         if isinstance(ObjectName, CIMInstanceName):
             # instance-level invocation
